@@ -19,7 +19,7 @@
    is within E19 of the vertex p1, and it is locally Lipschitz in d up to
    2 * E19. *)
 From RM Require Import Model.ControlPoints Model.Curve Proofs.FloatFacts Proofs.PositionFacts
-  Proofs.InterpExact Proofs.AdjustExact Proofs.AdjustIEEEBase Proofs.AdjustIEEE Proofs.PositionEndIEEE.
+  Proofs.InterpExact Proofs.LengthBound Proofs.AdjustExact Proofs.AdjustIEEEBase Proofs.AdjustIEEE Proofs.PositionEndIEEE.
 From Flocq Require Import Core BinarySingleNaN.
 From Coq Require Import Reals Lra Psatz.
 Open Scope R_scope.
